@@ -65,6 +65,10 @@ def cases(tier, rng):
         if w == 64:
             for nblk in (1, 2):
                 yield {'k': 'preset', 'alg': alg, 'preset': (1 << 32) - bs, 'nblk': nblk, 'tail': 5}
+        for P in (0, (1 << top) - bs, 3 * bs):
+            for nblk in (1, 2):
+                for tail in (B + 1, 2 * B, 2 * B + 5, 3 * B + B // 2):
+                    yield {'k': 'preset', 'alg': alg, 'preset': P, 'nblk': nblk, 'tail': tail}
 
 def run(case, ctx, rng):
     k = case['k']; alg = case['alg']
